@@ -165,10 +165,23 @@ def check_no_panic_on_symbol(ctx, F):
                     why = c20.try_bound(F, r, i, e0)
                     k = (e['callee'], (e.get('span') or '').split('-')[0])
                     sites[k] = sites.get(k, True) and bool(why)
+                elif e['kind'] == 'ovf_check' and e['msg'].startswith('Overflow(Add') and sym.contains(e['cond'], is_sym):
+                    # `symbol + c` evaluated before the symbol is known to be in range: panics in checked builds for symbols
+                    # near the top of the type (and wraps in unchecked ones)
+                    c = e['cond']
+                    ops = [x for x in sym.subterms(c) if isinstance(x, tuple) and x and x[0] == 'ovf']
+                    a = ops[0][2] if ops else None
+                    d = dbmmod.DBM()
+                    pin = [(rules.inline_pure(F, t), v, bb) for t, v, bb in r.preds[:rules.preds_before(r, i)]]
+                    dbmmod.harvest(d, c20._drop_wrapping_guards(pin))
+                    lens = {x for t, v, _ in pin for x in sym.subterms(t) if isinstance(x, tuple) and x and x[0] == 'len'}
+                    ok = a is not None and any(d.entails_le(a, L) for L in lens)
+                    k = ('overflow-checked `symbol + c`', (e.get('span') or str(e['block'])).split('-')[0])
+                    sites[k] = sites.get(k, True) and ok
                 elif e['kind'] == 'assert' and 'BoundsCheck' in str(e.get('msg')) and e['cond'][0] == 'bin' and sym.contains(e['cond'][2], is_sym):
                     c = e['cond']      # the *index* (not merely the length of some derived slice) is computed from the symbol
                     d = dbmmod.DBM()
-                    dbmmod.harvest(d, r.preds[:rules.preds_before(r, i)])
+                    dbmmod.harvest(d, c20._drop_wrapping_guards([(rules.inline_pure(F, t), v, bb) for t, v, bb in r.preds[:rules.preds_before(r, i)]]))
                     ok = c[0] == 'bin' and c[1] == 'Lt' and d.entails_le(c[2], c[3], strict=True)
                     k = ('index bounds check', str(e['block']))
                     sites[k] = sites.get(k, True) and ok
